@@ -58,6 +58,53 @@ def loci_tie(ctx, out, rng):
             out["nontrivial"].add(("loci", str(c)))
 
 
+def edge_init_tie(ctx, out, rng):
+    """model `indexedGap` / `gapKey` / `lnLCompressedGap` / `fullLengthGap` (Model/PruneGap.lean, theorems gap_column_weightless /
+    gap_column_full_length) against the REAL `_LikelihoodTreeEdge.__init__` (branch alignment=None) run on stand-in children that
+    carry only what it reads (index, uniq, shape, ambig, alphabet), followed by the real get_log_sum_across_sites /
+    get_full_length_likelihoods over ALL rows of the node's table, the appended gap row included (likelihood 2^-key[0])"""
+    import numpy
+    from cogent3.evolve.likelihood_tree import LikelihoodTreeEdge
+
+    cases = []
+    for _ in range(ctx.budget(150, 2500)):
+        nk = rng.randint(1, 4)
+        n = rng.randint(0, 14)
+        kids = []
+        for _k in range(nk):
+            nu = rng.randint(2, 5)  # the child's own gap row included
+            kids.append(dict(index=[rng.randrange(nu - 1) for _ in range(n)], nuniq=nu))
+        cases.append(kids)
+    replies = ctx.driver.batch([("edgeinit", dict(children=c)) for c in cases])
+    ln2 = math.log(2.0)
+    for c, r in zip(cases, replies):
+        out["evaluations"] += 1
+        if "error" in r:
+            add_failure(out, "corr", "driver error (edgeinit)", c, "reply", r["error"], confirmed=False)
+            continue
+        kids = [types.SimpleNamespace(index=numpy.array(k["index"], int), uniq=[None] * k["nuniq"], shape=[k["nuniq"], 4],
+                                      ambig=numpy.ones(k["nuniq"]), alphabet=None) for k in c]
+        try:
+            node = LikelihoodTreeEdge(kids, "x")
+            got = dict(uniq=[[int(x) for x in row] for row in node.uniq], counts=[int(x) for x in node.counts],
+                       index=[int(x) for x in node.index], indexes=[[int(x) for x in row] for row in node.indexes])
+            lhs = numpy.array([2.0 ** -int(row[0]) for row in node.uniq], float)
+            wls = float(node.get_log_sum_across_sites(lhs)) / ln2
+            full = [int(x) for x in node.get_full_length_likelihoods(numpy.array([-int(row[0]) for row in node.uniq], int))] if len(c[0]["index"]) else []
+        except Exception as e:
+            add_failure(out, "corr", "_LikelihoodTreeEdge.__init__ raised on stand-in children", c, "a node", f"{type(e).__name__}: {e}", confirmed=False)
+            continue
+        bump(out, "edge_init_children", len(c))
+        want = {k: r[k] for k in ("uniq", "counts", "index", "indexes")}
+        if got != want:
+            add_failure(out, "corr", "_LikelihoodTreeEdge.__init__ uniq/counts/index/indexes differ from model indexedGap", c, want, got, confirmed=False)
+        elif abs(wls - r["wls"]) > 1e-9 * max(1.0, abs(r["wls"])) or r["wls"] != r["plain"] or full != r["full"]:
+            add_failure(out, "corr", "log-sum / full-length likelihoods over the node's table (gap row included) differ from the model",
+                        c, dict(wls=r["wls"], full=r["full"]), dict(wls=wls, full=full), confirmed=False)
+        if len(got["uniq"]) - 1 < len(c[0]["index"]) and len(got["uniq"]) > 2:
+            out["nontrivial"].add(("edgeinit", str(c)))
+
+
 def rand_loci_problem(rng, name, nloci):
     spec = U.rand_problem(rng, name, ntips=rng.randint(3, 5), ncols=rng.randint(3, 9), bins=1, scoped=False, zero_ok=False)
     motifs = [str(m) for m in U.get_sm(name).get_alphabet()]
@@ -341,6 +388,17 @@ def check_hmm(ctx, spec, rng, out, kind):
         if abs(v - want_f) > abs(want_f) * Fraction(1, 10**10):
             add_failure(out, "corr", f"Lean `{key}` over the patch paths differs from the bin-level definition", _slim(spec),
                         float(want_f), float(v), confirmed=False)
+    # executed theorems: site_hmm_eq_bin_forward (no hypothesis: EXACT equality of the patch-level code model and the forward
+    # recursion over the bins) and the Lean bin-level definition `bruteHmm nb bprobs binMatrix` = the harness's own sum over all
+    # bin paths (both exact on the same rationals)
+    if r2.get("bin") != r2.get("code"):
+        add_failure(out, "corr", "Lean: siteHmm differs from the forward recursion over the bins (contradicts site_hmm_eq_bin_forward)",
+                    _slim(spec), r2.get("code"), r2.get("bin"), confirmed=False)
+    if r2.get("binspec") is not None and npaths:
+        bump(out, "hmm_lean_bin_definition", f"bins={nb}")
+        if unrat(r2["binspec"]) != want_f:
+            add_failure(out, "corr", "Lean bin-level definition (bruteHmm over bin paths with binMatrix) differs from the harness's sum over all bin paths",
+                        _slim(spec), str(want_f), r2["binspec"], confirmed=False)
     if not (abs(got - want) <= REL_LNL * abs(want) + 1e-12):
         add_failure(out, "spec", "site-class HMM lnL differs from the sum over all class assignments (published definition)",
                     dict(_slim(spec), check="hmm"), want, got, sig=f"hmm:{_classify(ctx, lf, got)}:patch-probs-{cls}")
@@ -382,6 +440,7 @@ def _nuc_models():
 
 def correspondence(ctx, out, rng):
     loci_tie(ctx, out, rng)
+    edge_init_tie(ctx, out, rng)
     nuc = _nuc_models()
     for i in range(ctx.budget(8, 200)):
         spec = rand_hmm_problem(rng, nuc[(i + ctx.seed) % len(nuc)])
